@@ -31,10 +31,8 @@ theorem failWith_never_ok {α : Type} (fds : List Fd) (e : Nat) (h h' : Hist) (a
   | cons fd rest ih =>
     intro hr
     unfold Sys.failWith.go at hr
-    obtain ⟨hm, ok, _, h2⟩ := Runs.bind_inv hr
-    split at h2
-    · exact ih _ h2
-    · obtain ⟨_, he⟩ := Runs.ret_inv h2; cases he
+    obtain ⟨hm, _, _, h2⟩ := Runs.bind_inv hr
+    exact ih _ h2
 
 /-- a successful `fstatfs` wrapper call is exactly one answered call -/
 theorem fstatfs_ok_inv {fd : Fd} {h h' : Hist} {t : Nat} (hr : Runs (Sys.fstatfs fd) h h' (.ok t)) :
@@ -52,18 +50,18 @@ theorem fstatfs_ok_inv {fd : Fd} {h h' : Hist} {t : Nat} (hr : Runs (Sys.fstatfs
   · exact absurd h4 (failWith_never_ok _ _ _ _ _)
   · obtain ⟨_, he⟩ := Runs.ret_inv h4; cases he
 
+/-- building an error value always completes with the error it was built for, whatever the
+diagnostic reads are answered (they build no error value themselves: repair of finding F26) -/
 theorem failWith_inv {α : Type} (fds : List Fd) (e : Nat) (h h' : Hist) (x : Except Err α)
     (hr : Runs (Sys.failWith (α := α) fds e) h h' x) :
-    x = .error (.os e) ∨ ∃ s, x = .error (.panic s) := by
+    x = .error (.os e) := by
   unfold Sys.failWith at hr
   induction fds generalizing h with
-  | nil => unfold Sys.failWith.go at hr; obtain ⟨_, he⟩ := Runs.ret_inv hr; exact Or.inl he
+  | nil => unfold Sys.failWith.go at hr; obtain ⟨_, he⟩ := Runs.ret_inv hr; exact he
   | cons fd rest ih =>
     unfold Sys.failWith.go at hr
-    obtain ⟨hm, ok, _, h2⟩ := Runs.bind_inv hr
-    split at h2
-    · exact ih _ h2
-    · obtain ⟨_, he⟩ := Runs.ret_inv h2; exact Or.inr ⟨_, he⟩
+    obtain ⟨hm, _, _, h2⟩ := Runs.bind_inv hr
+    exact ih _ h2
 
 /-- every run of the `statx` wrapper: either the descriptor was refused before any call
 (`EBADF`), or the first thing that happened is the `statx` call and the result reflects its answer -/
@@ -72,7 +70,7 @@ theorem statx_inv {dir : Fd} {path : Bytes} {mask : Nat} {h h' : Hist} {x : Exce
     (x = .error (.os EBADF)) ∨
     ∃ resp, (h ++ [(.statx dir path STAT_FLAGS mask, resp)]) <+: h' ∧
       ((∃ m id, resp = .nums [m, id] ∧ x = .ok (m, id)) ∨
-       (∃ e, resp = .err e ∧ (x = .error (.os e) ∨ ∃ s, x = .error (.panic s))) ∨
+       (∃ e, resp = .err e ∧ x = .error (.os e)) ∨
        (∃ s, x = .error (.badResp s))) := by
   unfold Sys.statx at hr
   rcases Runs.mbind_inv hr with ⟨ha, _, hh1, hh2⟩ | ⟨e, hh1, hx⟩
@@ -134,25 +132,17 @@ theorem fetchMntId_inv {dir : Fd} {path : Bytes} {h h' : Hist} {id : Option Nat}
         simp [mntOf]
       · cases he
     · subst hresp
-      rcases hxx with hxx | ⟨s, hxx⟩
-      · subst hxx
-        rcases hx with ⟨a, ha, _⟩ | ⟨e', he, hfat⟩
-        · cases ha
-        · cases he
-          rcases hfat with ⟨hf, _⟩ | ⟨_, hxa⟩
-          · simp [Err.isFatal] at hf
-          · cases hxa
-            dsimp only at h2
-            split at h2
-            · obtain ⟨_, hid⟩ := Runs.ret_inv h2; cases hid; simp [mntOf]
-            · obtain ⟨_, he⟩ := Runs.ret_inv h2; cases he
-      · subst hxx
-        rcases hx with ⟨a, ha, _⟩ | ⟨e', he, hfat⟩
-        · cases ha
-        · cases he
-          rcases hfat with ⟨_, hxa⟩ | ⟨hf, _⟩
-          · cases hxa
-          · simp [Err.isFatal] at hf
+      subst hxx
+      rcases hx with ⟨a, ha, _⟩ | ⟨e', he, hfat⟩
+      · cases ha
+      · cases he
+        rcases hfat with ⟨hf, _⟩ | ⟨_, hxa⟩
+        · simp [Err.isFatal] at hf
+        · cases hxa
+          dsimp only at h2
+          split at h2
+          · obtain ⟨_, hid⟩ := Runs.ret_inv h2; cases hid; simp [mntOf]
+          · obtain ⟨_, he⟩ := Runs.ret_inv h2; cases he
     · subst hxx
       rcases hx with ⟨a, ha, _⟩ | ⟨e', he, hfat⟩
       · cases ha
